@@ -60,7 +60,7 @@ def lib_view(s):
     except Exception as e:  # pylint: disable=broad-except
         out["parse_exc"] = e
     try:
-        with core.Silence():
+        with core.Guard():
             out["model"] = impl_model(s)
     except Exception as e:  # pylint: disable=broad-except
         out["model_exc"] = e
@@ -152,6 +152,8 @@ def _junk_in_sentence(s):
 def judge(ctx, s, domain, ref_toks=None, expect=None):
     """Judge one string.  `ref_toks`: tokens known by construction; `expect`: dict with optional keys
     'reject' (must be rejected), 'same_as' (model that an accepted variant must have)."""
+    if ctx.skip():
+        return None
     try:
         rt = ref_toks if ref_toks is not None else rp.tokenize(s)
     except rp.Reject:
@@ -213,7 +215,7 @@ def judge(ctx, s, domain, ref_toks=None, expect=None):
     # O2: the fully parenthesised form denotes the same model
     text = rp.full(ref)
     try:
-        with core.Silence():
+        with core.Guard():
             m2 = model_of_full(text)
     except Exception as e:  # pylint: disable=broad-except
         ctx.fail("full_form", case, f"{s!r} is accepted but its fully parenthesised form {text!r} raises {type(e).__name__}: {e}", core.exc_key(e))
